@@ -141,6 +141,15 @@ def render_html(res):
             body.append('<map name="m%d"><area shape="rect" coords="0,0,1,1" href="%s" alt="a"></map>' % (i, sp))
         else:
             body.append('<a href="%s">link</a>' % sp)
+    if getattr(res, 'omit_html_tag', False) and not res.inlines and not res.base_href:
+        # (only pages whose every reference is an ordinary link: a document without the start tag is also read by wpull's
+        # JavaScript scraper, which takes every quoted URL for a link - for embedded objects that is a reading of its own)
+        # the html element's tags are optional (HTML 8.1.2.4); an inline script repeats the first link of the page as a string
+        # (a page's declaration - nofollow - holds for the whole document, whichever scrapers look at it)
+        if res.links:
+            head.append('<script>var first = "%s"; function go() { location = first; }</script>' % res.links[0][1].replace('"', '%22'))
+        return ('<!DOCTYPE html>\n<head>%s</head>\n<body>\n%s\n%s</body>\n'
+                % (''.join(head), '\n'.join(body), res.extra_html)).encode('utf-8')
     return ('<!DOCTYPE html>\n<html><head>%s</head>\n<body>\n%s\n%s</body></html>\n'
             % (''.join(head), '\n'.join(body), res.extra_html)).encode('utf-8')
 
@@ -208,7 +217,8 @@ class Site:
 PAGE_PATHS = ['/', '/index.html', '/a.html', '/b.html', '/d1/', '/d1/p1.html', '/d1/p2.html', '/d1/d2/', '/d1/d2/p3.html',
               '/d1/d2/p4.html', '/other/', '/other/q.html', '/d1/x%20y.html', '/UP/Case.html',
               '/d10/s.html', '/d1-old/t.html', '/other2/u.html', '/d1.html',
-              '/A.html', '/d1/P1.html', '/up/case.html', '/caf%C3%A9/m.html']    # differ from others by letter case only: distinct URLs
+              '/A.html', '/d1/P1.html', '/up/case.html', '/caf%C3%A9/m.html',
+              '/list.jsp', '/d1/view.jsp']         # HTML pages whose names make other scrapers look at them too ('.js' in the path)    # differ from others by letter case only: distinct URLs
 
 
 def gen_site(tape, nhosts=1, npages=6, with_requisites=True, with_redirects=True, start_in_subdir=False, foreign=False,
@@ -275,6 +285,9 @@ def gen_site(tape, nhosts=1, npages=6, with_requisites=True, with_redirects=True
     # some documents declare a base of their own (it holds for that document only)
     # (wpull, like other crawlers, also takes the href of <base> for a link: the base is always a directory page of the site,
     # and the reference knows it as a link of the document)
+    for p in pages:
+        if tape.chance(1, 6, 'site.omit_html_tag'):
+            p.omit_html_tag = True
     for p in pages:
         if tape.chance(1, 8, 'site.base_href'):
             dirs = [d for d in pages if d.path.endswith('/') and d.query is None and d.origin.key() == p.origin.key()]
